@@ -16,13 +16,15 @@ def unbounded_allocator(run):
         raise common.MachineryFailure("UidAlloc.tla: the inductive invariant does not hold (base %s, step %s)" % (base, step))
     if neg != "Error":
         raise common.MachineryFailure("UidAlloc.tla: the negative control (no AUTOINCREMENT) is not refuted")
+    nob = tlc.tlaps("UidAllocProof")
+    run.extra["tlaps_proof"] = {"module": "spec/tlaps/UidAllocProof.tla", "theorem": "Spec => []NeverReused", "obligations_proved": nob}
     run.extra["apalache_inductive_invariant"] = {"module": "spec/apalache/UidAlloc.tla", "base_case": base, "inductive_step": step,
                                                  "negative_control_without_autoincrement": neg, "seconds": [t1, t2, t3]}
 
 
 def check(run, tier):
     quick = tier == "quick"
-    run.rule = ("leg A0: Apalache, unbounded: IndInv of UidAlloc.tla (high-water mark >= every identifier ever issued, never "
+    run.rule = ("leg A00: TLAPS proves Spec => []NeverReused for the allocator (UidAllocProof.tla, no bound); leg A0: Apalache, unbounded: IndInv of UidAlloc.tla (high-water mark >= every identifier ever issued, never "
                 "reused) as an inductive invariant, with the no-AUTOINCREMENT negative control; leg A: TLC, all histories of MC_C07 (Create, Register x2, CreateKeyPair, Destroy by two users, reads of live / "
                 "dead / unused identifiers, Locate, restarts) to the stated depth and identifier bound; leg B: every model "
                 "transition executed on the real engine (restarts are real engine restarts on the same file); leg C: seeded "
